@@ -86,6 +86,21 @@ def run(ck, ctx):
     def is_writer(q):
         return bool(q) and ((WRITER_ is not None and q.startswith(WRITER_)) or q in writer_fns)
 
+    # ---------------------------------------------------------------- R17.2 no rewrite on a failure path
+    def r172_finally():
+        # a write placed in a `finally` block runs when the guarded update raised as well: the file then holds a
+        # half-applied stage (astropy adds the columns of one stage one at a time) instead of the last complete prefix
+        bad = [e for e in file_w if e.data.get("in_finally")]
+        for e in bad[:4]:
+            owner = e.funcs()[-1] if e.funcs() else "?"
+            ck.ob("R17.2", f"the file is rewritten only after the table update succeeded [{owner} at {e.where()}]", False,
+                  e.node, owner, "the write sits in the `finally` of the block that updates the table: it also runs when "
+                  "the update raised, and puts a partially added stage on disk",
+                  construct=f"{owner}: results file written from a finally block")
+        ck.ob("R17.2", "no write of the results file sits on the failure path of a table update (finally block)", not bad,
+              table, func, f"{len(file_w)} write site(s), {len(bad)} in a finally block")
+    ck.guard(r172_finally, "R17.2 finally")
+
     # ---------------------------------------------------------------- R17.1 ownership
     def r171():
         ck.floor("R17.1", len(muts), 14, "mutations of the results table below compute()")
